@@ -174,12 +174,25 @@ def main(argv):
 def run(prop, tier, seed, units, work, t0):
     from . import thorough as thorough_mod
     known = load_known()
-    nthreads = max(2, 16 // max(1, len(units)))
-    with concurrent.futures.ThreadPoolExecutor(max_workers=len(units)) as ex:
-        futs = [ex.submit(verus.run_unit, u, REPO, os.path.join(work, os.path.basename(u)[:-3]), 60, None, None, nthreads) for u in units]
-        results = [f.result() for f in futs]
+    deps = []
+    for u in units:
+        for d in depends_of(u):
+            if d not in units and d not in deps:
+                deps.append(d)
+    allu = units + deps
+    nthreads = max(2, 16 // max(1, len(allu)))
+    with concurrent.futures.ThreadPoolExecutor(max_workers=len(allu)) as ex:
+        futs = [ex.submit(verus.run_unit, u, REPO, os.path.join(work, os.path.basename(u)[:-3]), 60, None, None, nthreads) for u in allu]
+        allres = [f.result() for f in futs]
+    results = allres[:len(units)]
+    depres = allres[len(units):]
     inconclusive = [r for r in results if r.status == 'inconclusive']
     obls, problems = collect(prop, results)
+    for r in depres:
+        # contracts assumed here (include-assumed) are discharged in the unit they come from
+        if r.status != 'ok':
+            problems.append('assumed contracts come from unit %s, which is %s there (%s); reported under its own properties'
+                            % (r.unit, r.status, (r.reason or '; '.join(e['message'] + ' in ' + str(e['fn']) for e in r.errors[:3]))[:300]))
     extra = {}
     kani_results = []
     if not inconclusive:
@@ -242,6 +255,8 @@ def run(prop, tier, seed, units, work, t0):
         'functions_under_contract': fn_under,
         'solver_time_s': round(solver_ms / 1000.0, 3),
         'unit_wall_s': {r.unit: round(r.wall_s, 2) for r in results},
+        'assumed_contracts': [dict(a, unit=r.unit) for r in results if r.gen for a in r.gen.assumed_contracts],
+        'dependency_units': {r.unit: r.status for r in depres},
         'extraction': extraction,
         'not_decided': meta_for(prop).get('not_decided', []),
         'known_findings_open': [k for k in known.get('open', []) if k['property'] == prop],
